@@ -14,7 +14,7 @@ RULE = ("metamorphic monitor: the library is run on x and on T(x) and the two re
         "for precomputed / ordinal, affine for numerical, character substitution for Levenshtein), time shift, positive "
         "time scale, delta_empty -> c*delta_empty in all components}; x = seeded random continua up to 2x60, 3x15, 4x8, "
         "5x5 units with pooled dissimilarities; primary family float32-exact (dyadic times < 4096, integer shifts up to the last integers float32 holds "
-        "exactly (2^23 .. 2^24; 2^20 .. 2^21 for a 1/8 grid), power-of-two / small-integer scales, dyadic c; a block of "
+        "exactly (2^23 .. 2^24; 2^20 .. 2^21 for a 1/8 grid), power-of-two / small-integer scales, dyadic c and delta_empty factors down to 3e-6 (compared in units of the scaled delta_empty); a block of "
         "heavy-tailed durations (1 .. 1750) under annotator renaming; a block of dense 3x15 continua), secondary family generic float32-representable times; for "
         "delta scaling also compute_gamma under the same numpy seed. non-trivial = continuum with >= 2 units; distinct by "
         "SHA-1 of (continuum, dissimilarity, transformation)")
@@ -107,7 +107,7 @@ def t_scale(rng, cspec, dspec):
 
 
 def t_delta(rng, cspec, dspec):
-    c = float(rng.choice([2, 4, 0.5, 0.25, 3, 1.5]))
+    c = float(rng.choice([2, 4, 0.5, 0.25, 3, 1.5, 2.0 ** -16, 1e-5, 3e-6]))   # down to costs below a MIP solver's absolute tolerances
     d2 = copy.deepcopy(dspec)
 
     def scale(d):
@@ -146,7 +146,7 @@ def check_case(ctx, case):
         return
     ctx.count(f"M-META-{tname}")
     x, y = float(a1.disorder), float(a2.disorder)
-    if not oracles.close(x * factor, y, rel=rel):
+    if not oracles.close_at_scale(x * factor, y, min(1.0, factor) if tname == "delta" else 1.0, rel=rel):
         ctx.fail(f"disorder-not-invariant-under:{tname}", {"original": x, "transformed": y, "expected": x * factor,
                                                            "transformation": info, "dissim": dspec["kind"]},
                  monitor=f"M-META-{tname}")
@@ -157,7 +157,7 @@ def check_case(ctx, case):
             # a precision level (second batch of samples sized from the coefficient of variation, which has no unit) only
             # with power-of-two factors: every float32 disorder is then scaled exactly and the batch size cannot sit on a
             # rounding edge
-            prec = case.get("precision") if factor in (2.0, 4.0, 0.5, 0.25) else None
+            prec = case.get("precision") if factor in (2.0, 4.0, 0.5, 0.25, 2.0 ** -16) else None
             ctx.observe("delta_gamma_precision", str(prec))
             np.random.seed(case["np_seed"])
             g1 = c1.compute_gamma(d1, n_samples=case["n_samples"], sampler=_sampler(case["sampler"]), precision_level=prec)
@@ -180,7 +180,7 @@ def check_case(ctx, case):
                                                            "expected": [float(g1.expected_disorder), float(g2.expected_disorder)]},
                      monitor="M-META-delta-gamma")
         e1, e2 = float(g1.expected_disorder), float(g2.expected_disorder)
-        if not oracles.close(e1 * factor, e2, rel=1e-4):
+        if not oracles.close_at_scale(e1 * factor, e2, min(1.0, factor), rel=1e-4):
             ctx.fail("expected-disorder-not-scaled-by-the-delta-factor", {"expected": e1, "scaled": e2, "factor": factor},
                      monitor="M-META-delta-gamma")
 
@@ -207,10 +207,21 @@ def run(ctx):
         ctx.begin_case(case)
         ctx.observe("transform", "delta")
         check_case(ctx, case)
+    # every transformation on a few small continua first, whatever the time budget (deciding monitors)
+    first_d = [{"kind": "positional", "delta": 1.0}, {"kind": "combined", "alpha": 1.0, "beta": 1.0, "delta": 1.0, "pos": None, "cat": None}]
+    for i in range(12):
+        tname0 = names[i % len(names)]
+        cs0 = cases.gen_continuum(rng, n_annot=rng.choice([2, 3]), max_units=4, allow_empty=False, labels=cases.LABELS_SMALL, family="dyadic")
+        case = {"continuum": cs0, "dissim": first_d[i % 2], "transform": tname0, "family_exact": True, "t_seed": 1000 + i}
+        ctx.begin_case(case)
+        ctx.observe("transform", tname0)
+        check_case(ctx, case)
     # dense 3x15 continua under annotator renaming only: this is where a path-dependent solver result (early stop inside
     # a gap, tie-breaking on column order) shows - about one such continuum in 40 under a 1 % gap (measured)
     dense_d = [{"kind": "combined", "alpha": 1.0, "beta": 1.0, "delta": 1.0, "pos": None, "cat": None}, {"kind": "positional", "delta": 1.0}]
     for i in range(ctx.scale(50, 600)):
+        if ctx.time_left() < 0.7 * ctx.time_budget:
+            break
         fam = rng.choice(["dense", "dense", "longoverlap"])
         cspec = cases.gen_continuum(rng, n_annot=3, sizes=[15] * 3, labels=cases.LABELS_SMALL, family=fam, names=cases.ANNOTATOR_NAMES[:3])
         case = {"continuum": cspec, "dissim": dense_d[i % 2], "transform": "annotators", "family_exact": False, "t_seed": rng.randrange(2 ** 31)}
@@ -219,6 +230,8 @@ def run(ctx):
         check_case(ctx, case)
     # continua with an integrality gap (the solver has to branch) under annotator renaming
     for hc in ac.hard_mip_cases(ctx, "partition", limit=ctx.scale(20, None)):
+        if ctx.time_left() < 0.55 * ctx.time_budget:
+            break
         case = dict(hc, transform="annotators", family_exact=False, t_seed=rng.randrange(2 ** 31))
         ctx.begin_case(case)
         ctx.observe("transform", "annotators(integrality-gap corpus)")
@@ -226,6 +239,8 @@ def run(ctx):
     # heavy-tailed durations under annotator renaming: which annotator comes first alphabetically must not decide which
     # far-but-long partner units are considered
     for i in range(ctx.scale(60, 1500)):
+        if ctx.time_left() < 0.45 * ctx.time_budget:
+            break
         n = rng.choice([2, 2, 3])
         cspec = cases.gen_continuum(rng, n_annot=n, sizes=[rng.randint(4, 12) if n == 2 else rng.randint(3, 6) for _ in range(n)],
                                     labels=cases.LABELS_SMALL, family="heavytail")
@@ -237,6 +252,8 @@ def run(ctx):
     # at the two ends of one long unit of a third annotator - the three belong together only through the long one, so no
     # pair of annotators may be given a say on its own
     for i in range(ctx.scale(60, 1500)):
+        if ctx.time_left() < 0.35 * ctx.time_budget:
+            break
         n = rng.choice([3, 3, 4])
         names_ = cases.ANNOTATOR_NAMES[:n]
         ann = {a: [] for a in names_}
